@@ -34,6 +34,10 @@ pub enum Fault {
     LengthLie(usize),
     /// redirect to self
     Redirect,
+    /// this and every later request is redirected to a fresh URL of this server, up to the given
+    /// number of redirects in total (then requests are served normally): a redirect chain that
+    /// only a hop limit on the client side ends
+    RedirectLoop(usize),
 }
 
 #[derive(Clone, Debug, Default)]
@@ -190,6 +194,12 @@ fn handle(mut stream: TcpStream, shared: Arc<Mutex<Shared>>) {
             let n = s.reqno;
             s.reqno += 1;
             let mut f = s.script.faults.get(n).cloned().unwrap_or(Fault::None);
+            if let Some(Fault::RedirectLoop(max)) = s.script.faults.last().cloned() {
+                if n + 1 >= s.script.faults.len() {
+                    let sent = s.log.iter().filter(|l| l.fault.starts_with("RedirectLoop")).count();
+                    f = if sent < max { Fault::RedirectLoop(max) } else { Fault::None };
+                }
+            }
             if f == Fault::Refuse {
                 // request arrived on a kept-alive connection: close without answering
                 s.log.push(ReqLog { range, conn, sent: 0, fault: "Refuse".into() });
@@ -197,7 +207,7 @@ fn handle(mut stream: TcpStream, shared: Arc<Mutex<Shared>>) {
                 let _ = stream.shutdown(Shutdown::Both);
                 return;
             }
-            if range.is_none() && !matches!(f, Fault::Garbage | Fault::Redirect) {
+            if range.is_none() && !matches!(f, Fault::Garbage | Fault::Redirect | Fault::RedirectLoop(_)) {
                 f = Fault::None;
             }
             // the request is logged when it is received; `sent` is filled in afterwards
@@ -249,6 +259,12 @@ fn handle(mut stream: TcpStream, shared: Arc<Mutex<Shared>>) {
                 let _ = stream.flush();
                 let _ = stream.shutdown(Shutdown::Both);
                 return;
+            }
+            Fault::RedirectLoop(_) => {
+                let hop = shared.lock().unwrap().reqno;
+                let _ = stream.write_all(format!("HTTP/1.1 302 Found\r\nLocation: /archive.cba?hop={hop}\r\nContent-Length: 0\r\n\r\n").as_bytes());
+                let _ = stream.flush();
+                continue;
             }
             Fault::Redirect => {
                 let _ = stream.write_all(b"HTTP/1.1 302 Found\r\nLocation: /archive.cba\r\nContent-Length: 0\r\n\r\n");
